@@ -3,6 +3,7 @@ import IceSpec.C09
 import IceProofs.GatherLedger
 import IceProofs.GatherAgent
 import IceProofs.GatherPark
+import IceProofs.GatherMon
 /-!
 # C09 — every socket the agent opens is closed when its candidate goes away
 
@@ -13,7 +14,7 @@ programs drive the model that the `gather` component compares with the counting 
 TURN client around the real agent after every operation.
 -/
 namespace IceProps.C09
-open IceModel.Gather IceProofs.GatherLedger IceProofs.GatherAgent IceProofs.GatherPark
+open IceModel.Gather IceProofs.GatherLedger IceProofs.GatherAgent IceProofs.GatherPark IceProofs.GatherMon
 
 /-- **Every exit path of every gatherer is balanced.** For every gather unit (any kind, any number of
 mapped / relayed addresses) and EVERY sequence of answers of the environment — each fallible step may
@@ -110,6 +111,22 @@ theorem C09_conservation (cfg : Config) (ifs : List Iface) (s0 : MState) (h0 : n
 
 /-! ### nothing of the ended generation stays open -/
 
+/-- a relay agent with continual gathering and finding C09-G11, 733 ms after its table got a second address: the
+monitor's re-gather pass waits for its TURN allocation -/
+def g11With (quirks : List Nat) : MState :=
+  match newAgent { candTypes := [.relay], netTypes := [.udp4], turnUrls := 1, continual := true, monIntervalMs := 733,
+                   quirks := quirks }
+      [{ name := 0, up := true, loopback := false, addrs := [⟨.g4, 1⟩] }] with
+  | .ok s0 =>
+    -- the first pass ends when its TURN allocation times out (8 s): the monitor starts then
+    let s1 := (step s0 .gather).1
+    let s2 := (step s1 (.adv 8000)).1
+    let s3 := (step s2 (.ifaces [{ name := 0, up := true, loopback := false, addrs := [⟨.g4, 1⟩, ⟨.g4, 2⟩] }])).1
+    (step s3 (.adv 733)).1
+  | .error _ => {}
+
+def g11State : MState := g11With [11]
+
 theorem le_foldl_max (l : List Nat) : ∀ (a x : Nat), (x ∈ l ∨ x ≤ a) → x ≤ l.foldl max a := by
   induction l with
   | nil => intro a x h; rcases h with h | h; simp at h; simpa using h
@@ -125,41 +142,56 @@ theorem le_foldl_max (l : List Nat) : ∀ (a x : Nat), (x ∈ l ∨ x ≤ a) →
     · right; exact Nat.le_trans h (Nat.le_max_left _ _)
 
 /-- **After Close has returned.** No candidate is left, and no unit of the last cycle (the one Close
-waits for) is left: whatever is still parked belongs to a cycle that an earlier Restart superseded,
-and its deadline has not passed yet.  (`g` = the state after the gate of the fake mux was opened,
-which is how the harness closes.) -/
-theorem C09_zero_after_close (s : MState) (hp : Parked s) :
+waits for) is left — neither of its first pass nor of a re-gather pass of its monitor (continual gathering):
+whatever is still parked belongs to a cycle that an earlier Restart superseded, and its deadline has not passed
+yet.  (`g` = the state after the gate of the fake mux was opened, which is how the harness closes.  Repaired
+code: without finding C09-G11, see the witness below.) -/
+theorem C09_zero_after_close (s : MState) (hp : Parked s) (h11 : s.cfg.has 11 = false) :
     let g := openGate s
     let s' := closeAgent s
-    s'.cands = [] ∧ ∀ j ∈ s'.jobs, j ∈ g.jobs ∧ j.cyc ≠ g.cyc.cycles.length - 1 ∧ s'.now < j.deadline := by
+    s'.cands = [] ∧ s'.mon = none
+      ∧ ∀ j ∈ s'.jobs, j ∈ g.jobs ∧ j.cyc ≠ g.cyc.cycles.length - 1 ∧ s'.now < j.deadline := by
   intro g s'
-  refine ⟨rfl, ?_⟩
   have hg : Parked g := openGate_parked hp
+  have hcfg : g.cfg.has 11 = false := by
+    show (openGate s).cfg.has 11 = false
+    rw [(openGate_fr s).cfg]; exact h11
   -- unfold closeAgent step by step
-  let s1 : MState := { g with cyc := (Cycle.step false g.cyc .close).1 }
+  let s1 : MState := { g with cyc := (Cycle.step false g.cyc .close).1, mon := none }
   let pick1 : Job → Option (Ans × Nat) := fun j => if isStunJob j &&
       ((g.cyc.cycles[j.cyc]?).map (fun c => !c.cancelled)).getD false then some (.fail, 0) else none
   let s2 := resume s1 pick1
   let cur := g.cyc.cycles.length - 1
-  let dl := ((s2.jobs.filter (fun j => j.cyc == cur)).map (·.deadline)).foldl max 0
-  let s3 : MState := if dl > s2.now then { s2 with now := s2.now + 500 * ((dl - s2.now + 499) / 500) } else s2
+  let dl := closeDeadline s2 (g.cfg.has 11 && g.mon.isSome) cur
+  let s3 := closeWait s2 dl
   let pick2 : Job → Option (Ans × Nat) := fun j => if j.deadline ≤ s3.now then some (.fail, 0) else none
   have hs' : s' = dropCands (resume s3 pick2) := rfl
   have h1 : Parked s1 := parked_of_jobs hg rfl
   have h2 : Parked s2 := resume_parked h1 pick1
-  have h3 : Parked s3 := by
-    show Parked (if dl > s2.now then _ else s2)
-    split
-    · exact parked_of_jobs h2 rfl
-    · exact h2
+  have h3 : Parked s3 := closeWait_parked h2 dl
   have hj3 : s3.jobs = s2.jobs := by
-    show (if dl > s2.now then ({ s2 with now := s2.now + 500 * ((dl - s2.now + 499) / 500) } : MState) else s2).jobs = s2.jobs
-    split <;> rfl
+    show (closeWait s2 dl).jobs = s2.jobs
+    unfold closeWait; split <;> rfl
+  have hdl : dl = ((s2.jobs.filter (fun j => j.cyc == cur)).map (·.deadline)).foldl max 0 := by
+    show closeDeadline s2 (g.cfg.has 11 && g.mon.isSome) cur = _
+    simp [closeDeadline, hcfg]
   have hnow : dl ≤ s3.now := by
-    show dl ≤ (if dl > s2.now then ({ s2 with now := s2.now + 500 * ((dl - s2.now + 499) / 500) } : MState) else s2).now
+    show dl ≤ (closeWait s2 dl).now
+    unfold closeWait
     split
     · simp only; omega
     · omega
+  have hmon : s'.mon = none := by
+    rw [hs']
+    show (resume s3 pick2).mon = none
+    have m3 : s3.mon = none := by
+      show (closeWait s2 dl).mon = none
+      have m2 : s2.mon = none := resume_mon_none s1 pick1 rfl
+      unfold closeWait; split
+      · exact m2
+      · exact m2
+    exact resume_mon_none s3 pick2 m3
+  refine ⟨rfl, hmon, ?_⟩
   intro j hj
   rw [hs', dropCands_jobs, resume_jobs h3, hj3] at hj
   simp only [List.mem_filter] at hj
@@ -175,6 +207,7 @@ theorem C09_zero_after_close (s : MState) (hp : Parked s) :
   refine ⟨hjg, ?_, ?_⟩
   · intro hc
     have : j.deadline ≤ dl := by
+      rw [hdl]
       apply le_foldl_max
       left
       simp only [List.mem_map, List.mem_filter]
@@ -182,11 +215,12 @@ theorem C09_zero_after_close (s : MState) (hp : Parked s) :
     omega
   · have : s'.now = s3.now := by
       rw [hs']
-      show (dropCands (resume s3 pick2)).now = s3.now
-      exact resume_now s3 pick2
+      show (resume s3 pick2).now = s3.now
+      exact (resume_fr s3 pick2).now
     omega
 where
-  exec_now (p : Prog) : ∀ (s : MState) (j : Job), (exec s j p).1.now = s.now := by
+  /-- the gatherers never start a monitor -/
+  exec_mon (p : Prog) : ∀ (s : MState) (j : Job), (exec s j p).1.mon = s.mon := by
     induction p with
     | ret => intro s j; rfl
     | acquire l k a b iha ihb =>
@@ -206,16 +240,15 @@ where
       · split
         · rw [ihs]
         · rw [ihs]
-  settle_now (p : MState × Job) : (settle p).now = p.1.now := by
+  settle_mon (p : MState × Job) : (settle p).mon = p.1.mon := by
     unfold settle; split <;> rfl
-  resume_now (s : MState) (pick : Job → Option (Ans × Nat)) : (dropCands (resume s pick)).now = s.now := by
-    show (resume s pick).now = s.now
+  resume_mon_none (s : MState) (pick : Job → Option (Ans × Nat)) (h : s.mon = none) : (resume s pick).mon = none := by
     unfold resume
     have key : ∀ (todo : List Job) (s0 : MState),
         (todo.foldl (fun s j =>
           match pick j with
           | none => s
-          | some (a, m) => settle (exec s { j with answer := some a, m := m } j.prog)) s0).now = s0.now := by
+          | some (a, m) => settle (exec s { j with answer := some a, m := m } j.prog)) s0).mon = s0.mon := by
       intro todo
       induction todo with
       | nil => intro s0; rfl
@@ -225,24 +258,32 @@ where
         rw [ih]
         cases pick j with
         | none => rfl
-        | some am => obtain ⟨a, m⟩ := am; simp only; rw [settle_now, exec_now]
-    exact key _ _
+        | some am => obtain ⟨a, m⟩ := am; simp only; rw [settle_mon, exec_mon]
+    exact (key _ _).trans h
 
-/-- **After Restart, once the superseded cycle has wound down.** A unit whose deadline has passed is
-gone after the clock advances (each answered unit returns, `exec_answered`), … -/
+/-- the code with finding C09-G11 (Close does not wait for a re-gather pass of the monitor): a relay agent whose
+monitor started a pass 733 ms ago closes — the TURN unit of the LAST cycle is still parked after `closeAgent`, with
+its socket and TURN client open -/
+theorem C09_zero_after_close_G11_witness :
+    ¬ (∀ s : MState, Parked s →
+        ∀ j ∈ (closeAgent s).jobs, j.cyc ≠ (openGate s).cyc.cycles.length - 1) := by
+  intro h
+  have hp : Parked g11State := by
+    intro j hj
+    have : g11State.jobs.all (fun j => j.prog.parked) = true := by decide
+    exact List.all_eq_true.1 this j hj
+  have := h g11State hp
+  have hex : (closeAgent g11State).jobs.any (fun j => j.cyc == (openGate g11State).cyc.cycles.length - 1) = true := by decide
+  obtain ⟨j, hj, hc⟩ := List.any_eq_true.1 hex
+  exact this j hj (by simpa using hc)
+
+/-- **After Restart, once the superseded cycle has wound down.** After the virtual clock has been advanced,
+every unit still parked times out strictly later: a unit whose deadline has passed is gone (each answered unit
+returns, `exec_answered`), and a unit started by the monitor of a continual cycle on the way is either gone too
+or has its deadline ahead, … -/
 theorem C09_expired_units_gone (s : MState) (hp : Parked s) (ms : Nat) :
-    ∀ j ∈ (step s (.adv ms)).1.jobs, j ∈ s.jobs ∧ s.now + ms < j.deadline := by
-  intro j hj
-  have hj' : j ∈ (resume { s with now := s.now + ms }
-      (fun j => if j.deadline ≤ s.now + ms then some (Ans.fail, 0) else none)).jobs := by
-    rw [← finishCycle_jobs]; exact hj
-  rw [resume_jobs (s := { s with now := s.now + ms }) (parked_of_jobs hp rfl)] at hj'
-  simp only [List.mem_filter] at hj'
-  refine ⟨hj'.1, ?_⟩
-  have := hj'.2
-  split at this
-  · simp at this
-  · omega
+    ∀ j ∈ (step s (.adv ms)).1.jobs, s.now + ms < j.deadline :=
+  advTo_late hp (s.now + ms) (by omega)
 
 /-- … and when no candidate and no unit is left, every resource that was ever opened has been closed:
 the open count is zero, whatever the history (reply timings, cancellations, errors, duplicates). -/
@@ -275,5 +316,19 @@ example : (srflxMappedProg 3).run [.ok, .ok, .ok, .fail, .ok, .fail, .ok, .ok, .
 example : (IceSpec.C09.check {} "stunreply" "ok"
     { gen := 1, led := [((.sock, some 0), 1)], opens := 1, closes := 0 }).1
     = some "resources of an ended generation still open after its gathering wound down: sk" := by decide
+
+/-- continual gathering: the re-gather pass of `g11State` holds a socket and a TURN client (2 opens of the first pass
+closed again after its timeout, 2 open now); the repaired code's Close waits for the pass (8 s more on the clock),
+nothing is left parked, everything is closed; the code with C09-G11 returns at once with both still open -/
+example : ((g11With []).opens, (g11With []).closes, (g11With []).jobs.length, (g11With []).now) = (4, 2, 1, 8733) := by decide
+example : ((closeAgent (g11With [])).opens, (closeAgent (g11With [])).closes, (closeAgent (g11With [])).jobs.length,
+    (closeAgent (g11With [])).now) = (4, 4, 0, 16733) := by decide
+example : ((closeAgent g11State).opens, (closeAgent g11State).closes, (closeAgent g11State).jobs.length,
+    (closeAgent g11State).now) = (4, 2, 1, 8733) := by decide
+/-- … which the monitor rejects -/
+example : (IceSpec.C09.check {} "close" "ok"
+    { st := none, gen := 0, led := [((.sock, some 0), 1), ((.tclient, some 0), 1)], opens := 4, closes := 2,
+      pend := [(true, 0, "T0.0.u4.u4.0")] }).1
+    = some "resources of the closed generation still open after Close returned" := by decide
 
 end IceProps.C09
